@@ -1,19 +1,19 @@
 SPECIFICATION Spec
 CONSTANTS
- MaxBatches = 3
- BatchSizes = {1,2}
+ MaxBatches = 2
+ BatchSizes = {1}
  Cap = 2
- SyncWrites = FALSE
- Spill = TRUE
+ SyncWrites = TRUE
+ Spill = FALSE
  MaxHist = 0
  Keys = {1,2}
  NBuckets = 1
- VCap = 0
- MaxGC = 0
+ VCap = 2
+ MaxGC = 2
  MaxCrash = 1
  FlushWorkers = 1
  GcSync = TRUE
- GcExact = TRUE
+ GcExact = FALSE
 VIEW view
 INVARIANT RecordPrefix
 INVARIANT AckedDurable
